@@ -52,6 +52,15 @@ def expected_range(ref, sheet, c1, r1, c2, r2):
 def elements(result, h, w):
     """undo pycel's documented trimming of excess dimensions: -> {(i, j): value}"""
     out = {}
+    if h > 1 and w > 1:
+        if len(result) != h or any(len(r) != w for r in result):
+            raise ValueError('shape')
+    elif h == 1 and w > 1:
+        if len(result) != w:
+            raise ValueError('shape')
+    elif w == 1 and h > 1:
+        if len(result) != h:
+            raise ValueError('shape')
     for i in range(h):
         for j in range(w):
             if h == 1 and w == 1:
@@ -127,6 +136,19 @@ class Book:
             self.bad(f'{tag}-raises', f'evaluate({text!r}) raised {got[1]}',
                      {'kind': 'path', 'path': text, 'first': first})
             return
+        if tag == 'unbounded' and isinstance(got[1], tuple):
+            # openpyxl creates cells on access, so an earlier evaluate of a rectangle reaching beyond the
+            # used area makes the used area (and with it the clipped range) larger: extra blank
+            # rows/columns are not a disagreement about any cell
+            g = got[1]
+            if w == 1 and len(g) >= h and not isinstance(g[0], tuple):
+                h = len(g)
+            elif h == 1 and len(g) >= w and not isinstance(g[0], tuple):
+                w = len(g)
+            elif g and isinstance(g[0], tuple):
+                h, w = max(h, len(g)), max(w, len(g[0]))
+            r2, c2 = r1 + h - 1, c1 + w - 1
+            exp = expected_range(self.ref, sheet, c1, r1, c2, r2)
         try:
             el = elements(got[1], h, w)
         except Exception:
